@@ -10,10 +10,12 @@ require (
 )
 
 require (
+	github.com/alecthomas/kong v1.8.1 // indirect
 	github.com/djherbis/times v1.6.0 // indirect
 	github.com/lmittmann/tint v1.0.7 // indirect
 	golang.org/x/sys v0.31.0 // indirect
 	golang.org/x/text v0.23.0 // indirect
+	gopkg.in/ini.v1 v1.67.0 // indirect
 )
 
 replace github.com/xakep666/ps3netsrv-go => /repo
